@@ -103,6 +103,21 @@ def run(tier):
     cases = pipeline.generate_cases(n_gen, f"{PROP}-{tier}",
                                     families=["simult", "choice", "branchy", "param", "finite", "poly", "cont", "guarded"])
     ar = [arith_stress_case(r, i) for i in range(n_arith)]
+    # long decimals (7+ places, tiny constants): decimal and fraction notation must denote the same rational
+    def long_decimal_case(i):
+        d1 = Fr(r.choice([3333333, 7142857, 1234567, 9999988, 6666667]), 10**7)
+        d2 = Fr(r.choice([1, 3, 25]), 10**r.choice([7, 8, 9]))
+        d3 = Fr(r.choice([14285714, 11111111, 27182818]), 10**8)
+        init = [H.assign("x", H.ex(H.num(0))), H.assign("y", H.ex(H.num(1)))]
+        body = [H.assign("x", ("choice", [(H.add(H.var("x"), H.num(1)), H.num(d1)), (H.sub(H.var("x"), H.num(1)), H.sub(H.num(1), H.num(d1)))])),
+                H.assign("y", H.ex(H.add(H.mul(H.num(d3), H.var("y")), H.num(d2))))]
+        if i % 2 == 0:
+            body.append(H.assign("u", ("dist", "Normal", [H.num(d3), H.num(1)])))
+            init.append(H.assign("u", H.ex(H.num(0))))
+        return {"family": "long-decimal", "program": {"init": init, "guard": H.TT, "body": body},
+                "goals": [[("x", 1)], [("y", 1)], [("x", 2)]] + ([[("u", 2)]] if i % 2 == 0 else []),
+                "params": {}, "sigma0": {}, "features": ["long-decimals"], "id": f"longdec-{i}"}
+    cases += [long_decimal_case(i) for i in range(4 if quick else 40)]
     # ---- (a) spellings: parse-level law + full pipeline
     parse_jobs, full_jobs = [], []
     for c in cases:
